@@ -49,3 +49,6 @@ func allStrings(alphabet string, n int, f func(string)) {
 }
 
 func q(s string) string { return strconv.QuoteToASCII(s) }
+
+// hxsRaw is hex without the "-" convention (node text uses the empty string for empty hex).
+func hxsRaw(s string) string { return hex.EncodeToString([]byte(s)) }
